@@ -996,6 +996,83 @@ func c17CallbacksOutsideStreamMutex(c *Ctx, R string) {
 	c.Floor(R, "acquisitions of a stream mutex", n, 15)
 }
 
+// C13.8: the coalescing packer (Initial + Handshake + 0/1-RTT in one datagram) is used only before the handshake is
+// confirmed — the repository's stated rule ("It should only be called before the handshake is confirmed"). After
+// confirmation the Initial and Handshake keys are gone and only the short-header path accounts for MTU probes, GSO
+// batching and pacing.
+func c13CoalescedOnlyBeforeConfirmation(c *Ctx) {
+	const R = "C13.8"
+	pcp := c.obj("", "packer", "PackCoalescedPacket")
+	hc := c.fld("", "Conn", "handshakeConfirmed")
+	n := 0
+	for _, f := range c.P.ScopeFuncs() {
+		if funcPkgPath(f) != modPath {
+			continue
+		}
+		for _, in := range findInstrsLocal(f, CallsTo(pcp)) {
+			n++
+			c.FuncsSet[funcName(rootFn(f))] = true
+			ok := dominatedByEdge(in.Block(), BoolTrue(Load(hc)), true)
+			c.Check(ok, R, fmt.Sprintf("before-confirmation:PackCoalescedPacket in %s#%d", funcName(rootFn(f)), n), c.P.InstrPos(in),
+				"the coalescing packer is called on the !handshakeConfirmed edge only")
+		}
+	}
+	c.Floor(R, "PackCoalescedPacket call sites", n, 2)
+}
+
+// C20.7: the ECN tracker is consulted only for 1-RTT ACKs that increase the largest acknowledged packet number — the
+// repository's stated precondition of HandleNewlyAcked ("must only be called for ACK frames that increase the largest
+// acknowledged packet number"): ECN counts of a reordered, older ACK compared against newer totals look like new CE
+// marks and produce a congestion event (a window reduction) without any loss.
+func c20ECNOnlyForAdvancingAcks(c *Ctx) {
+	const R = "C20.7"
+	f := c.fn(ah, "sentPacketHandler", "ReceivedAck")
+	hna := c.obj(ah, "ecnHandler", "HandleNewlyAcked")
+	la := c.fld(ah, "packetNumberSpace", "largestAcked")
+	n := 0
+	for _, in := range findInstrs(f, CallsTo(hna)) {
+		n++
+		ok := false
+		for d := in.Block(); d != nil && d.Idom() != nil && !ok; d = d.Idom() {
+			id := d.Idom()
+			ifi, isIf := id.Instrs[len(id.Instrs)-1].(*ssa.If)
+			if !isIf || len(d.Preds) != 1 {
+				continue
+			}
+			for s := 0; s < 2; s++ {
+				if id.Succs[s] != d {
+					continue
+				}
+				bo, isB := ifi.Cond.(*ssa.BinOp)
+				if !isB {
+					continue
+				}
+				op := bo.Op
+				if s == 1 {
+					op = negOp(op)
+				}
+				x, y := bo.X, bo.Y
+				if op == token.LSS {
+					x, y, op = y, x, token.GTR
+				}
+				// <the ACK's largest acked> > pnSpace.largestAcked
+				if op == token.GTR && loadsPath(y, la) && !loadsPath(x, la) {
+					ok = true
+				}
+			}
+		}
+		c.Check(ok, R, fmt.Sprintf("guard:HandleNewlyAcked only for an ACK that advances largestAcked#%d", n), c.P.InstrPos(in),
+			"ECN counts are compared with the totals of the previous ACK: for an ACK that does not advance the largest acknowledged they are stale and can look like new congestion marks")
+	}
+	c.Floor(R, "HandleNewlyAcked calls in ReceivedAck", n, 1)
+	// and the largest acked of the space is raised only after that comparison (the call precedes the update)
+	for _, in := range findInstrs(f, CallsTo(hna)) {
+		in := in
+		c.cut(R, "order:largestAcked is updated after the ECN comparison", &Cut{Fn: f, Start: StoresTo(la), Target: func(x ssa.Instruction) bool { return x == in }},
+			"once pnSpace.largestAcked holds the new value the guard largestAcked > pnSpace.largestAcked is never true")
+	}
+}
+
 // valueOf: the instruction as a value (nil if it is not one).
 func valueOf(in ssa.Instruction) ssa.Value {
 	v, _ := in.(ssa.Value)
